@@ -54,9 +54,10 @@ func (f *Revappend) Call(s *slip.Scope, args slip.List, depth int) slip.Object {
 	nl := make(slip.List, len(list))
 	copy(nl, list)
 	list = nl
-	max := len(list) - 1
-	for i := max / 2; 0 <= i; i-- {
-		list[i], list[max-i] = list[max-i], list[i]
+	if max := len(list) - 1; 0 < max {
+		for i := max / 2; 0 <= i; i-- {
+			list[i], list[max-i] = list[max-i], list[i]
+		}
 	}
 	switch ta := args[1].(type) {
 	case slip.List:
